@@ -137,7 +137,11 @@ func runC17(r *vhlib.Run) {
 			nreq = 600
 		}
 		if len(sink) > 30000 {
-			nreq /= 5 // the model is asked with the whole stream and history each time
+			// the model is asked with the whole stream and the whole history each time
+			nreq = 12
+			if !r.Quick() {
+				nreq = 40
+			}
 		}
 		cur := int64(0) // the Reader's position, for relative seeks
 		var hist []string
